@@ -75,12 +75,17 @@ def mBigParse (base t : String) : String :=
   | some r => "ok " ++ probeB r
   | none => "err"
 
-/-- spec: the conventional rendering (Lean's own `Nat.toDigits`, upper-cased) -/
+def convDigit (d : Nat) : Char := "0123456789ABCDEFGHIJKLMNOPQRSTUVWXYZ".toList.getD d '?'
+
+/-- spec: the conventional rendering (Lean's own positional digits `Nat.toDigits`-style, alphabet 0-9A-Z) -/
+partial def convDigits (b n : Nat) (acc : List Char) : List Char :=
+  if n < b then convDigit n :: acc else convDigits b (n / b) (convDigit (n % b) :: acc)
+
 def sBigStr (base a : String) : String :=
   let b := base.toNat!
   let x := decInt a
   if b < 2 ∨ 36 < b then "?" else
-  let ds := (Nat.toDigits b x.natAbs).map Char.toUpper
+  let ds := convDigits b x.natAbs []
   "ok " ++ encText ((if x < 0 then ['-'] else []) ++ ds)
 
 /-- spec: positional value of a well-formed numeral (digits below the base); anything else is unclaimed -/
